@@ -32,6 +32,10 @@ import (
 	"golang.org/x/net/context"
 )
 
+// initErrorWriteTimeout bounds the write of the error frame that reports a
+// failed handshake to the peer.
+const initErrorWriteTimeout = time.Second
+
 func (ch *Channel) outboundHandshake(ctx context.Context, c net.Conn, outboundHP string, events connectionEvents) (_ *Connection, err error) {
 	defer setInitDeadline(ctx, c)()
 	defer func() {
@@ -143,6 +147,10 @@ func (ch *Channel) initError(c net.Conn, connDir connectionDirection, id uint32,
 	if err == io.EOF {
 		err = NewWrappedSystemError(ErrCodeNetwork, io.EOF)
 	}
+	// The handshake deadline covers writes as well, so once it has expired (a
+	// silent peer) the error frame below could never be written. Give the
+	// error frame its own short write deadline.
+	c.SetWriteDeadline(time.Now().Add(initErrorWriteTimeout))
 	ch.writeMessage(c, &errorMessage{
 		id:      id,
 		errCode: GetSystemErrorCode(err),
